@@ -30,18 +30,13 @@ def main():
         os.remove(demo)
         r = sh("%s test -vet=off -count=1 ./..." % GO, cwd=wt)
         res["suite_passes_with"] = r.returncode == 0
-    finally:
-        sh("git -C /repo worktree remove --force %s" % wt)
-    # run the checks against /repo with the patch applied
-    assert sh("git -C /repo status --porcelain").stdout.strip() == "", "/repo not clean"
-    a = sh("git -C /repo apply %s" % os.path.join(src, "patch.diff"))
-    assert a.returncode == 0, a.stderr
-    try:
+        # run the checks against the worktree with the patch applied (VERIF_ARK_DIR), /repo stays untouched
+        if not os.path.exists(os.path.join(wt, "ecs", "verif_hooks.go")):
+            shutil.copy("/repo/ecs/verif_hooks.go", os.path.join(wt, "ecs", "verif_hooks.go"))
         res["checks"] = {}
         for c in checks:
             t0 = time.time()
-            seed = os.environ.get("VERIF_SEED", "1")
-            r = sh("cd /verif && ./check %s %s" % (c, os.environ.get("TIER", "quick")))
+            r = sh("cd /verif && VERIF_ARK_DIR=%s ./check %s %s" % (wt, c, os.environ.get("TIER", "quick")))
             line = ""
             lines = r.stdout.splitlines()
             for i, l in enumerate(lines):
@@ -50,7 +45,7 @@ def main():
                     break
             res["checks"][c] = {"rc": r.returncode, "s": round(time.time() - t0), "first": line}
     finally:
-        sh("git -C /repo checkout -- . && git -C /repo clean -fdq ecs")
+        sh("git -C /repo worktree remove --force %s" % wt)
     print(json.dumps(res, indent=1))
 
 main()
